@@ -16,7 +16,7 @@ RULE = ("Each case queues 1-5 memos to 1-2 destinations on a real sender (UDP Pe
         "subclass whose send() is the transport), small gram sizes so that memos split into several grams. Every transport send is "
         "decided by the tape: accept all, accept a prefix of k bytes, accept nothing (returns 0), EAGAIN / ENOBUFS (would block), or "
         "an unreachable-destination errno (ECONNREFUSED, ECONNRESET, ENETRESET, ENETUNREACH, EHOSTUNREACH, ENETDOWN, EHOSTDOWN, "
-        "ETIMEDOUT; for the unix-domain peer ECONNREFUSED, ENOENT, and ENOMEM as a further would-block). The sender is serviced (serviceAllTx / serviceTxGramsOnce, seeded mix) while faults are on, then with faults off "
+        "ETIMEDOUT; for the unix-domain peer ECONNREFUSED, ENOENT, and ENOMEM as a further would-block). The sender is serviced (serviceAllTx / serviceTxGramsOnce, seeded mix) while faults are on (in a quarter of the cases the transport is closed and reopened once in between), then with faults off "
         "for a bounded number of rounds through one entry point per case (serviceAllTx, serviceTxGramsOnce or serviceTxGrams). Oracle: the gram "
         "queue after serviceTxMemos is the queued memos' grams, memo by memo in queue order; evaluated on the kernel's own log of accepted bytes: every accepted chunk is the next "
         "unsent bytes of the gram at the head of the queue for its destination; grams complete in queue order; a gram is abandoned "
@@ -26,7 +26,7 @@ RULE = ("Each case queues 1-5 memos to 1-2 destinations on a real sender (UDP Pe
 COMPONENTS = dict(real=["hio.core.memo.memoing.Memoer tx services (_serviceOnceTxGrams, serviceTxGrams...)", "hio.core.udp.udping.Peer.send", "hio.core.udp.peermemoing.PeerMemoer", "hio.core.uxd.uxding.Peer.send", "hio.core.uxd.peermemoing.PeerMemoer", "hio.base.filing.Filer (socket directory in /dev/shm scratch)"],
                   stub=["datagram kernel sendto (FakeDgram)"])
 ASSUMPTIONS = ["partial acceptance of a datagram is generated because the statement quantifies over it (UDP itself is all-or-nothing)"]
-PROBES = ["would_block_on_fresh_gram", "remainder_left_when_queue_empty", "unreachable_drop", "partial_accept", "two_destinations", "bare_memoer", "uxd_peer"]
+PROBES = ["would_block_on_fresh_gram", "remainder_left_when_queue_empty", "unreachable_drop", "partial_accept", "two_destinations", "bare_memoer", "uxd_peer", "reopen_with_remainder_pending"]
 BOUNDS = dict(quick=dict(memos=5, send_calls=400), thorough=dict(memos=8, send_calls=800))
 TIERS = dict(quick=dict(cases=20000, wall=40.0), thorough=dict(cases=2500000, wall=420.0))
 SIM_TIME_UNIT = "send calls"
@@ -162,9 +162,22 @@ def run_case(tape, tier):
         except Exception as ex:
             raised.append((type(ex).__name__, str(ex)[:120]))
         rounds = 4 + tape.draw("fault_rounds", 30)
+        reopen_at = tape.draw("reopen_at", rounds) if tape.flag("reopen_mid_transmission", 1, 4) else None
         for r in range(rounds):
             if raised:
                 break
+            if r == reopen_at:
+                # the transport is closed and reopened between two service calls, possibly with a partly sent gram pending:
+                # queued grams and the remainder are the sender's state, not the socket's, and must survive
+                try:
+                    tx.close()
+                    tx.reopen()
+                except Exception as ex:
+                    raised.append((type(ex).__name__, str(ex)[:120]))
+                    break
+                res.faults["transport_reopened_mid_transmission"] += 1
+                if tx.txbs[1] is not None:
+                    res.probes["reopen_with_remainder_pending"] += 1
             if r == rounds // 2 and split < nmemo:
                 queue(memos[split:])
                 split = nmemo
